@@ -193,7 +193,7 @@ PROPS["C16"] = {
     "technique": "randomised differential and round-trip monitoring on the real conversion functions over a battery of 118 Form types (75 derived) and mutated/foreign texts",
     "text": "For 118 Form types (75 derived, covering tag, rename, header, header_body, attr, body, slot, skip, generics, nesting, collections; 43 built-ins) each generated instance is converted to Value and back through both API pairs and written/read as MessagePack; about 1.1 M (quick) / 45 M (thorough) further texts (valid, valid for another type, structure-mutated, token-mutated, random, crafted) test that parse_recognize::<T> and parse-to-Value followed by try_from_value agree on accept/reject and on the value. Printer faithfulness observed on the way is recorded under C09, not here.",
     "note": "Trusted base: harness generators/mutators (inputs only), each type's PartialEq, Value's own equality (lenient across integer kinds), catch_unwind (a panic in any conversion is a violation).",
-    "runs": [{"engine": "form"}],
+    "runs": [{"engine": "form", "args": ["--scale", "8"]}],
     "assumptions": ["finite f64 only", "skipped fields hold Default", "no Option<Option<_>>", "comments disabled in the parser"],
 }
 
@@ -231,7 +231,7 @@ PROPS["C09"] = {
     "technique": "runtime monitoring of the real printers, one-shot parser and incremental decoders: exact round-trip oracles over generated typed values, model values and mutated texts; every single cut position per input plus multi-cuts; robustness (no panic, bounded decode calls, resynchronisation after a bad frame); Miri (tree borrows) on a reduced set",
     "text": "The three Recon printers, parse_recognize, RecognizerDecoder and WithLenRecognizerDecoder are run on about 40k generated inputs per quick run (2M thorough): 33 typed (built-in and derived) types must round-trip through all printers; every model value the parser itself produced must come back exactly (floats by bits) through all printers and arbitrary values must reach a fixed point; the incremental decoders fed the same bytes cut at every single position (including inside the length header and inside multi-byte characters), one byte at a time and at random multi-cuts must give exactly the one-shot result; byte-mutated input (including invalid UTF-8) must never panic, must finish within a bounded number of decode calls and must not corrupt the following well-formed frame. The form engine's printer-faithfulness observations are recorded under this property as well.",
     "note": "Trusted base: the generators and the greedy shrinker (a shrunk candidate only counts as parser-produced when the real parser maps its explicit rendering to exactly that value); the one-shot parser is the reference for chunking. A hang inside one call shows only as the runner's watchdog (inconclusive). Depth limited to 64 as the property says (200/1000 only as an opt-in probe).",
-    "runs": [{"engine": "recon"}, {"engine": "form"}],
+    "runs": [{"engine": "recon", "args": ["--scale", "4"]}, {"engine": "form", "args": ["--scale", "4"]}],
     "sanitizers": [{"kind": "miri", "engine": "recon", "args": ["--scale", "0.002", "--threads", "1"], "timeout_s": 5400}],
     "assumptions": ["finite floats for typed values", "generated grammar and byte mutations cover the tokenizer branches"],
 }
